@@ -97,14 +97,19 @@ impl Family for C13 {
         _ => Op::Disconnect,
       });
     }
+    let subs_k: Vec<&str> = (0..nsub).map(|_| *rng.pick(&["direct", "direct", "map", "take1", "take2"])).collect();
+    let nested_ok = kind == "replay" && cold && nsub >= 2 && subs_k[..2].iter().all(|k| *k == "direct" || *k == "map");
     Json::obj(vec![
       ("kind", Json::str(kind)),
       ("source", Json::str(if cold { *rng.pick(&["cold", "cold-polite"]) } else { "hot" })),
       ("script", script_to_json(&script)),
-      ("subscribers", Json::Arr((0..nsub).map(|_| Json::str(*rng.pick(&["direct", "direct", "map", "take1", "take2"]))).collect())),
+      ("subscribers", Json::Arr(subs_k.iter().map(|k| Json::str(*k)).collect())),
       ("ops", Json::arr(ops.iter(), op_to_json)),
       // all subscribers use one Observable value obtained once, or a fresh observable() each
       ("share_observable", Json::Bool(rng.below(2) == 0)),
+      // replay over a cold source: subscriber i subscribes subscriber j from inside its terminal
+      // callback (while the source's subscribe function has not returned yet, if that is the burst)
+      ("nested", if nested_ok && rng.below(2) == 0 { Json::Arr(vec![Json::Int(0), Json::Int(1)]) } else { Json::Null }),
     ])
   }
   fn exec(&self, w: &Json, cfg: RunCfg) -> RunOut {
@@ -141,6 +146,19 @@ impl Family for C13 {
       return RunOut::invalid();
     }
     let cold = src_mode != "hot";
+    let nested: Option<(usize, usize)> = match w.get("nested") {
+      Some(Json::Arr(a)) if a.len() == 2 => match (a[0].as_i64(), a[1].as_i64()) {
+        (Some(i), Some(j)) if i >= 0 && j >= 0 && i != j && (i as usize) < nsub && (j as usize) < nsub => Some((i as usize, j as usize)),
+        _ => return RunOut::invalid(),
+      },
+      _ => None,
+    };
+    if let Some((i, j)) = nested {
+      // only where a subscriber's terminal can only be the source's (no take), over a cold source
+      if kind != "replay" || !cold || [i, j].iter().any(|k| !["direct", "map"].contains(&skinds[*k].as_str())) {
+        return RunOut::invalid();
+      }
+    }
     // ---- run
     let recs: Vec<Recorder> = (0..nsub).map(|_| Recorder::new()).collect();
     let src_log = Arc::new(Mutex::new(SrcLog::default()));
@@ -182,11 +200,37 @@ impl Family for C13 {
       let get_obs = |c: &Conn| if share { shared_obs.clone() } else { c.observable() };
       let mut pos = 0usize;
       let (mut connected_h, mut done_h) = (false, false);
+      let nested_sub: Arc<Mutex<Option<Subscription<'static>>>> = Arc::new(Mutex::new(None));
+      let nested_done = Arc::new(Mutex::new(false));
+      let mut recs2 = recs2;
+      if let Some((ni, nj)) = nested {
+        let (rj, oj, cell, done) = (recs2[nj].clone(), if sk2[nj] == "map" { get_obs(&conn).map(|x: Val| x) } else { get_obs(&conn) }, nested_sub.clone(), nested_done.clone());
+        recs2[ni].hook = Some(Arc::new(move |ev: &Ev| {
+          if ev.is_terminal() {
+            let first = {
+              let mut d = done.lock().unwrap();
+              !std::mem::replace(&mut *d, true)
+            };
+            if first {
+              let s = rj.subscribe(&oj);
+              *cell.lock().unwrap() = Some(s);
+            }
+          }
+        }));
+      }
       for op in &ops2 {
+        if let Some((_, nj)) = nested {
+          if *nested_done.lock().unwrap() {
+            ever[nj] = true;
+          }
+        }
         match op {
           Op::Sub(i) => {
             if !ever[*i] {
               ever[*i] = true;
+              if nested.map_or(false, |(_, nj)| nj == *i) {
+                *nested_done.lock().unwrap() = true;
+              }
               let o = match sk2[*i].as_str() {
                 "map" => get_obs(&conn).map(|x: Val| x),
                 "take1" => get_obs(&conn).take(1),
@@ -199,6 +243,12 @@ impl Family for C13 {
           Op::Unsub(i) => {
             if let Some(s) = &subs[*i] {
               s.unsubscribe();
+            }
+            if nested.map_or(false, |(_, nj)| nj == *i) {
+              let s = nested_sub.lock().unwrap().clone();
+              if let Some(s) = s {
+                s.unsubscribe();
+              }
             }
           }
           Op::Connect => {
@@ -236,6 +286,9 @@ impl Family for C13 {
         };
         let nsubs = sl.lock().unwrap().subscriptions.len();
         snaps2.lock().unwrap().push((rt::seq(), Snap { src_subscriptions: nsubs, src_live: live }));
+      }
+      if let Some((ni, _)) = nested {
+        recs2[ni].hook = None;
       }
     });
     // ---- model
@@ -383,6 +436,19 @@ impl Family for C13 {
               });
             }
             deliver(st, &mut live, &mut taken, &limit, &mut expect);
+          }
+        }
+        // the nested subscription: when i has just been handed its terminal, j joins (replay over a
+        // source that has ended: the whole history, then the stored terminal; no new connection)
+        if let Some((ni, nj)) = nested {
+          if !ever[nj] && expect[ni].last().map_or(false, |e| e.is_terminal()) {
+            ever[nj] = true;
+            for x in history_items.clone() {
+              expect[nj].push(Ev::Next(Val::Int(x)));
+            }
+            if let Some(t) = &stored_terminal {
+              expect[nj].push(t.clone());
+            }
           }
         }
         // ref_count / replay: the last subscriber leaving stops the source
@@ -829,5 +895,131 @@ impl Family for C13Reg {
       }
     }
     RunOut { fingerprint: crate::seq::fp(&history), res, violations: v, invalid: false, reach: vec![], history }
+  }
+}
+
+// ================================================================================================
+// replay() over a cold source that emits synchronously inside the connect, while further
+// subscribers arrive from other threads: one source subscription, everybody the whole sequence once
+
+pub struct C13ThrCold;
+
+impl Family for C13ThrCold {
+  fn name(&self) -> &'static str {
+    "c13-replay-cold-source-concurrent-subscribers"
+  }
+  fn threaded(&self) -> bool {
+    true
+  }
+  fn gen(&self, rng: &mut Rng, _tier: Tier) -> Json {
+    let n = rng.range(2, 3);
+    Json::obj(vec![
+      ("waits", Json::Arr((0..n).map(|_| Json::Int(rng.below(8) as i64)).collect())),
+      ("share_observable", Json::Bool(rng.below(2) == 0)),
+      ("n_items", Json::Int(rng.range(1, 3) as i64)),
+      ("terminal", Json::str(*rng.pick(&["complete", "complete", "error", "none"]))),
+      // scheduling points the source lets pass between two of its steps
+      ("source_pause", Json::Int(rng.below(4) as i64)),
+    ])
+  }
+  fn exec(&self, w: &Json, cfg: RunCfg) -> RunOut {
+    let waits: Vec<i64> = w.a("waits").iter().filter_map(|x| x.as_i64()).collect();
+    let n = waits.len();
+    let n_items = w.i("n_items");
+    let pause = w.i("source_pause");
+    if n < 1 || n > 4 || waits.iter().any(|x| *x < 0 || *x > 30) || n_items < 0 || n_items > 5 || pause < 0 || pause > 10 {
+      return RunOut::invalid();
+    }
+    let share = w.b("share_observable");
+    let mut script: Vec<Step> = (0..n_items).map(|i| Step::N(10 + i)).collect();
+    match w.s("terminal").as_str() {
+      "complete" => script.push(Step::C),
+      "error" => script.push(Step::E(4)),
+      "none" => {}
+      _ => return RunOut::invalid(),
+    }
+    let recs: Vec<Recorder> = (0..n).map(|_| Recorder::new()).collect();
+    let src_log = Arc::new(Mutex::new(SrcLog::default()));
+    let (recs2, sl, sc) = (recs.clone(), src_log.clone(), script.clone());
+    let res = rt::run(cfg, move || {
+      let (log, script) = (sl.clone(), sc.clone());
+      let source: Observable<'static, Val> = Observable::create(move |s: Observer<'static, Val>| {
+        let k = {
+          let mut l = log.lock().unwrap();
+          l.subscriptions.push((rt::seq(), rt::task_id().unwrap_or(0)));
+          l.subscriptions.len() - 1
+        };
+        for st in &script {
+          for _ in 0..pause {
+            rt::probe("c13-cold-source-pause");
+          }
+          emit(&s, k, st, &log, &None);
+        }
+        for _ in 0..pause {
+          rt::probe("c13-cold-source-pause");
+        }
+      });
+      let conn = Arc::new(source.replay());
+      let shared_obs = conn.observable();
+      let keep: Arc<Mutex<Vec<Subscription<'static>>>> = Arc::new(Mutex::new(Vec::new()));
+      let mut hs = Vec::new();
+      for i in 0..recs2.len() {
+        let (conn, rec, so, wt, keep) = (conn.clone(), recs2[i].clone(), shared_obs.clone(), waits[i], keep.clone());
+        hs.push(rt::spawn_harness("subscriber", move || {
+          for _ in 0..wt {
+            rt::probe("c13-subscriber-wait");
+          }
+          let o = if share { so } else { conn.observable() };
+          let s = rec.subscribe(&o);
+          keep.lock().unwrap().push(s);
+        }));
+      }
+      for h in hs {
+        let _ = h.join();
+      }
+      rt::quiesce();
+      let subs: Vec<_> = std::mem::take(&mut *keep.lock().unwrap());
+      for s in subs {
+        s.unsubscribe();
+      }
+    });
+    let blame = "replay";
+    let mut v = Vec::new();
+    let mut history = Vec::new();
+    let want: Vec<Ev> = script
+      .iter()
+      .map(|s| match s {
+        Step::N(i) => Ev::Next(Val::Int(*i)),
+        Step::E(e) => Ev::Error(*e),
+        Step::C => Ev::Complete,
+      })
+      .collect();
+    let show = |x: &[Ev]| x.iter().map(|e| e.show()).collect::<Vec<_>>().join(" ");
+    let nsubs = src_log.lock().unwrap().subscriptions.len();
+    history.push(format!("source subscribed {} time(s); script [{}]", nsubs, show(&want)));
+    for (i, r) in recs.iter().enumerate() {
+      history.push(format!("subscriber {}: {}", i, r.shown()));
+    }
+    if let Some(o) = outcome_violation(&res, blame) {
+      v.push(o);
+    } else {
+      if nsubs != 1 {
+        v.push(Violation::new("two-source-subscriptions", blame, format!("replay() over a cold source with {} subscribers arriving concurrently subscribed its source {} time(s)", n, nsubs)));
+      }
+      for (i, r) in recs.iter().enumerate() {
+        let got: Vec<Ev> = r.events().into_iter().map(|e| e.ev).collect();
+        if let Some(b) = contract_breach(&r.events()) {
+          v.push(Violation::new("event-after-terminal", blame, format!("subscriber {}: {}", i, b)));
+        } else if got != want {
+          let class = if got.len() < want.len() { "delivery-missing" } else { "delivery-extra" };
+          v.push(Violation::new(class, blame, format!("replay() over a cold source [{}]: subscriber {} must get the whole sequence once, got [{}]", show(&want), i, show(&got))));
+        }
+      }
+    }
+    let mut fp = 0u64;
+    for h in &history {
+      fp = fp.wrapping_mul(0x100000001B3) ^ fnv(h);
+    }
+    RunOut { res, violations: v, fingerprint: fp, invalid: false, reach: vec![], history }
   }
 }
